@@ -74,6 +74,7 @@ type mScene struct {
 	realFund   *client.ChannelUpdateMsg // M's real funding update (intercepted)
 	realSettle *client.ChannelUpdateMsg
 	subFinal   *channel.State // final state of the sub-channel that is being settled
+	acceptCtx  time.Duration  // context of the victim's Accept in acceptSubLong (0: 30 s)
 	two        bool           // the ledger channels are over two assets
 	holdM      bool           // keep dropping M's own parent updates during the adversarial phase
 	ledMoved   bool           // hub points: the victim accepted a crafted update of its channel with M (the real M did not: no probe there)
